@@ -289,6 +289,21 @@ def construct(t, sch, T, v, depth=0):
     return o
 
 
+def build_with_history(t, sch, T, v):
+    """One construction history of v following the tape t (drawn or replayed), detours undone at the end. -> object"""
+    o = construct(t, sch, T, v)
+    if t.fixups:
+        for use in (lambda: lib.encode('DER', o), lambda: lib.encode('CER', o), lambda: o.prettyPrint()):
+            try:
+                use()
+            except Exception:
+                pass
+        for fix in t.fixups:
+            fix()
+        t.log.append('reselected-in-place')
+    return o
+
+
 def run_case(case, col=None, tapes=None):
     T, v = case['T'], case['v']
     fails = []
